@@ -357,6 +357,30 @@ inductive OpContract (dim : SLeg → Nat) (Gt : Asg SLeg → R) (gp : List (SLeg
       OpContract dim Gt gp [a, b] (netValue dim (bs ++ [(b₁, b₂)]) (T₁ :: T₂ :: rest))
         (netValue dim (bs ++ [(q, r)]) (U :: V :: rest))
 
+/-- The contract of a two-site operator is satisfiable for EVERY pair of tensors joined by a bond and every
+gate: the absorbed tensor factorises exactly over a new bond of dimension one (`trivial_split`). -/
+theorem OpContract.exists_two (dim : SLeg → Nat) (Gt : Asg SLeg → R) (gp : List (SLeg × SLeg)) (a b : Nat)
+    (T₁ T₂ : Asg SLeg → R) (b₁ b₂ q r : SLeg) {S SG : SLeg → Prop}
+    (hT₁ : DependsOn S T₁) (hT₂ : DependsOn S T₂) (hGS : DependsOn S Gt) (hq : ¬ S q) (hr : ¬ S r)
+    (hd : dim q = 1) (hG : DependsOn SG Gt) (hnd : (Expr.pairLegs gp).Nodup) :
+    OpContract dim Gt gp [a, b] (netValue dim ([] ++ [(b₁, b₂)]) [T₁, T₂])
+      (netValue dim ([] ++ [(q, r)])
+        [fun τ => sumPairs dim gp (fun ρ => Gt ρ * sumPairs dim [(b₁, b₂)] (fun ρ' => T₁ ρ' * T₂ ρ') ρ) τ,
+         fun _ => 1]) :=
+  OpContract.two a b [] T₁ T₂ (fun τ => sumPairs dim [(b₁, b₂)] (fun ρ' => T₁ ρ' * T₂ ρ') τ) _ _ _ []
+    b₁ b₂ q r (fun _ => False) SG (fun _ => rfl) (fun _ => rfl)
+    (fun τ => trivial_split dim _ q r
+      (dependsOn_contract dim gp hGS (dependsOn_contract dim [(b₁, b₂)] hT₁ hT₂)) hq hr hd τ)
+    (by simp) id id id id (fun _ _ => id) hG (by simp [Expr.pairLegs]) (by simpa using hnd)
+
+/-- likewise for a one-site operator -/
+theorem OpContract.exists_single (dim : SLeg → Nat) (Gt : Asg SLeg → R) (gp : List (SLeg × SLeg)) (s : Nat)
+    (T : Asg SLeg → R) {SG : SLeg → Prop} (hG : DependsOn SG Gt) (hnd : (Expr.pairLegs gp).Nodup) :
+    OpContract dim Gt gp [s] (netValue dim [] [T])
+      (netValue dim [] [fun τ => sumPairs dim gp (fun ρ => Gt ρ * T ρ) τ]) :=
+  OpContract.single s [] T _ [] (fun _ => False) SG (fun _ => rfl) (by simp) (fun _ _ => id) hG
+    (by simp [Expr.pairLegs]) (by simpa using hnd)
+
 /-- one operator application is the gate action -/
 theorem OpContract.value {dim : SLeg → Nat} {Gt : Asg SLeg → R} {cur : Nat → GLeg} {g : Nat}
     {op : List Nat} {ψ ψ' : Asg SLeg → R}
